@@ -92,6 +92,48 @@ get_cpuid_ecx (orc_uint32 op, orc_uint32 init_ecx, orc_uint32 *a, orc_uint32 *b,
 }
 #elif defined(__GNUC__) || defined(__clang__) || defined (__SUNPRO_C)
 
+#ifdef ORC_VERIF_HOOKS
+/* Verification hook: the environment variable ORC_VERIF_CPUID, if set,
+ * replaces words returned by cpuid and the value of XCR0.  Syntax: a
+ * comma-separated list of <hexleaf>.<reg>=<hexvalue> (reg is eax, ebx, ecx
+ * or edx) and xcr0=<hexvalue>, e.g. "1.edx=4000000,1.ecx=0,7.ebx=0,xcr0=7". */
+#include <stdio.h>
+#include <stdlib.h>
+#include <string.h>
+static int
+orc_verif_cpuid_lookup (const char *key, orc_uint32 *value)
+{
+  const char *s = getenv ("ORC_VERIF_CPUID");
+  size_t len = strlen (key);
+
+  while (s && *s) {
+    if (strncmp (s, key, len) == 0 && s[len] == '=') {
+      *value = (orc_uint32) strtoul (s + len + 1, NULL, 16);
+      return 1;
+    }
+    s = strchr (s, ',');
+    if (s) s++;
+  }
+  return 0;
+}
+
+static void
+orc_verif_cpuid_override (orc_uint32 op, orc_uint32 *a, orc_uint32 *b,
+    orc_uint32 *c, orc_uint32 *d)
+{
+  char key[32];
+
+  sprintf (key, "%x.eax", op);
+  orc_verif_cpuid_lookup (key, a);
+  sprintf (key, "%x.ebx", op);
+  orc_verif_cpuid_lookup (key, b);
+  sprintf (key, "%x.ecx", op);
+  orc_verif_cpuid_lookup (key, c);
+  sprintf (key, "%x.edx", op);
+  orc_verif_cpuid_lookup (key, d);
+}
+#endif
+
 static void
 get_cpuid_ecx (orc_uint32 op, orc_uint32 init_ecx, orc_uint32 *a, orc_uint32 *b,
     orc_uint32 *c, orc_uint32 *d)
@@ -109,6 +151,9 @@ get_cpuid_ecx (orc_uint32 op, orc_uint32 init_ecx, orc_uint32 *a, orc_uint32 *b,
   __asm__ (
       "  cpuid\n"
       : "+a" (*a), "=b" (*b), "+c" (*c), "=d" (*d));
+#endif
+#ifdef ORC_VERIF_HOOKS
+  orc_verif_cpuid_override (op, a, b, c, d);
 #endif
 }
 
@@ -332,6 +377,13 @@ static orc_bool check_xcr0_ymm()
 #else
 static orc_bool ORC_TARGET_XSAVE check_xcr0_ymm()
 {
+#ifdef ORC_VERIF_HOOKS
+  {
+    orc_uint32 verif_xcr0;
+    if (orc_verif_cpuid_lookup ("xcr0", &verif_xcr0))
+      return (verif_xcr0 & XSAVE_SUPPORT_AVX) == XSAVE_SUPPORT_AVX;
+  }
+#endif
   return (_xgetbv(0) & XSAVE_SUPPORT_AVX) == XSAVE_SUPPORT_AVX;
 }
 #endif
